@@ -375,7 +375,9 @@ static const std::vector<std::array<std::string, 3>> &po_pools()
   static std::vector<std::array<std::string, 3>> pools = [] {
     const std::string L = "color.with.a.long.parameter.name.to.leave.sso";
     std::vector<std::array<std::string, 3>> n = {{{"a", L, "b"}}, {{"a", "ab", "abc"}}, {{L, "color.with.a.long.parameter.name.to.leave.ssp", L + "."}},
-        {{L, "dolor" + L.substr(5), "b"}}, {{"a", "A", ""}}, {{"", " ", "a"}}};
+        {{L, "dolor" + L.substr(5), "b"}}, {{"a", "A", ""}}, {{"", " ", "a"}},
+        // names with embedded zero bytes (binary ids packed into a std::string): equal length, equal up to the NUL
+        {{std::string("a\0b", 3), std::string("a\0c", 3), "a"}}, {{std::string("\x01\0\0\0", 4), std::string("\x01\0\x01\0", 4), std::string("\x01", 1)}}};
     uint32_t (*hs[])(const std::string &) = {h_fnv1a, h_fnv1, h_djb2, h_djb2x, h_sdbm, h_java, h_crc32, h_std32, h_std32hi, h_sum};
     for (auto h : hs) {
       std::unordered_map<uint32_t, std::string> seen;
